@@ -263,7 +263,7 @@ Definition ref_page (ps : Z) (mp : option Z) (script : list pg) (tail : pg) (bou
   end.
 
 (* ---------- timing ---------- *)
-Definition nsum (l : list N) : N := fold_right N.add 0%N l.
+(* nsum is Cloud.Ops.nsum *)
 Definition ref_sleeps (initial cap : Z) (ge2 : bool) (a : nat) : list Z :=
   map (fun j => if j =? 0 then initial
                 else Z.min cap (if ge2 then initial * 2 ^ j else initial))
@@ -564,6 +564,275 @@ Definition check_timing (input output : J) : verdict :=
   | _ => malformed
   end.
 
+(* ---------- waits observed in real time, every wrapper ----------
+   "waits": in = [cfg, [timeout_ms (retrying wrappers), timeout_ms (single-call wrappers)],
+                  script, busy_ms per call, slack_us]
+            out = [[w, code, total_us, gaps_us] for w = 0..14]
+   cfg = [initial | null, cap | null, multiplier | null, budget | null], null = the field of
+   RetryConfig::default().  Gap j is the time between the end of call j and the start of call
+   j+1, minimum over the harness's trials.
+   MODEL: the clock is derived (Cloud/Ops.v, Section Clock) in ns: tpm = 10^6, call i takes
+   busy_i ms, extra = 1 ns (the closure lets the clock tick).  agree = code equal, as many gaps as
+   the model has sleeps, gap j in [sleep_j, sleep_j + slack), total in [clock, clock + slack *
+   (1 + gaps + calls)).
+   REFERENCE: attempts a from the script (ref_retry), waits from the closed form (ref_sleeps),
+   Timeout iff the result is Ok and timeout_ms <= waits + time inside the calls.
+   A timeout is USABLE for a wrapper when it is <= the derived clock (the real clock is strictly
+   later: overrun for sure) or at least 300 ms above it (certainly in time); a case with an
+   unusable timeout is malformed (the generator must not produce it) - decided from the model
+   alone, never from the observation. *)
+Definition ns_per_ms : N := 1000000.
+Definition grey_ns : N := 300 * ns_per_ms.
+Definition usable (t_ns clk : N) : bool := (t_ns <=? clk)%N || (clk + grey_ns <=? t_ns)%N.
+
+Definition dec_cfg_field (j : J) (dflt : N) : option N :=
+  match j with JN => Some dflt | JI z => if 0 <=? z then Some (Z.to_N z) else None | _ => None end.
+Definition dec_cfg (ji jc jm jb : J) : option retry_cfg :=
+  let d := retry_cfg_default in
+  match dec_cfg_field ji (initial_delay_ms d), dec_cfg_field jc (max_delay_ms d),
+        (match jm with JN => Some (mult_ge2 d) | JF m => Some (PrimFloat.leb 2%float m)
+                  | _ => None end),
+        dec_cfg_field jb (max_attempts d) with
+  | Some i, Some c, Some g, Some b =>
+      Some {| max_attempts := b; initial_delay_ms := i; max_delay_ms := c; mult_ge2 := g |}
+  | _, _, _, _ => None
+  end.
+(* the same configuration for the reference, with the documented defaults written out *)
+Definition ref_cfg (ji jc jm jb : J) : Z * Z * bool * Z :=
+  ((match ji with JI z => z | _ => 100 end), (match jc with JI z => z | _ => 5000 end),
+   (match jm with JF m => PrimFloat.leb 2%float m | _ => true end),
+   (match jb with JI z => z | _ => 3 end)).
+
+Definition busy_ns (busy : list Z) (i : nat) : N :=
+  let b := nth i busy 0 in (ns_per_ms * Z.to_N b)%N.
+Definition zsum (l : list Z) : Z := fold_right Z.add 0 l.
+
+(* expected gaps: Some ms = a back-off sleep, None = no sleep at all (between two items of the
+   per-item batch) *)
+Fixpoint gaps_ok (exp : list (option Z)) (obs : list Z) (slack : Z) : bool :=
+  match exp, obs with
+  | [], [] => true
+  | e :: exp', g :: obs' =>
+      (match e with
+       | Some ms => (1000 * ms <=? g) && (g <? 1000 * ms + slack)
+       | None => (0 <=? g) && (g <? slack)
+       end) && gaps_ok exp' obs' slack
+  | _, _ => false
+  end.
+Definition total_ok (lo_us total slack : Z) (ngaps calls : nat) : bool :=
+  (lo_us <=? total) && (total <? lo_us + slack * (1 + Z.of_nat ngaps + Z.of_nat calls)).
+
+(* the per-item batch: gaps from the trace (same item twice in a row = a sleep) *)
+Fixpoint io_gaps (tr : list Z) (sleeps : list N) : list (option Z) :=
+  match tr with
+  | x :: ((y :: _) as tr') =>
+      if x =? y then
+        match sleeps with
+        | d :: sleeps' => Some (Z.of_N d) :: io_gaps tr' sleeps'
+        | [] => [Some (-1)]                      (* cannot happen; never matches *)
+        end
+      else None :: io_gaps tr' sleeps
+  | _ => match sleeps with [] => [] | _ => [Some (-1)] end
+  end.
+
+Fixpoint ref_io_gaps (b : N) (ini cap : Z) (ge2 : bool) (s : list Z) (items : list Z) (from : nat)
+  : list (option Z) :=
+  match items with
+  | [] => []
+  | x :: rest =>
+      let '(a, sym) := ref_retry b s from in
+      map Some (ref_sleeps ini cap ge2 a)
+      ++ (if sym =? 0
+          then match rest with [] => [] | _ => None :: ref_io_gaps b ini cap ge2 s rest (from + a)%nat end
+          else [])
+  end.
+Fixpoint ref_io_calls (b : N) (s : list Z) (items : list Z) (from : nat) : nat :=
+  match items with
+  | [] => O
+  | x :: rest =>
+      let '(a, sym) := ref_retry b s from in
+      if sym =? 0 then (a + ref_io_calls b s rest (from + a))%nat else a
+  end.
+
+(* model side of one wrapper: (usable, code, gaps, clock in us, calls) *)
+Definition model_wait (w : Z) (c : retry_cfg) (t_ms : Z) (s busy : list Z)
+  : bool * list Z * list (option Z) * Z * nat :=
+  let op := script_op s in
+  let bz := busy_ns busy in
+  let t := (ns_per_ms * Z.to_N t_ms)%N in
+  let of_run (timed_out : bool) (r : run Z Z) :=
+      let clk := run_clock ns_per_ms bz 0 r in
+      (negb timed_out || usable t clk, code_of_run r,
+       map (fun d => Some (Z.of_N d)) (run_sleeps r), Z.of_N clk / 1000, run_calls r) in
+  match w with
+  | 0 => of_run false (retry c op 0)
+  | 1 => of_run false (run_with_retry c op 0)
+  | 2 => of_run false (run_cloud_io_with_retry c op 0)
+  | 3 => of_run false (timed_builder_execute (-1) (Some c) None ns_per_ms bz 1 op 0)
+  | 4 => of_run true (timed_builder_execute (-1) (Some c) (Some t) ns_per_ms bz 1 op 0)
+  | 5 => of_run false (timed_executor_execute (-1) (Some c) None ns_per_ms bz 1 op 0)
+  | 6 => of_run true (timed_executor_execute (-1) (Some c) (Some t) ns_per_ms bz 1 op 0)
+  | 7 => of_run true (timed_retry (-1) c t ns_per_ms bz 1 op 0)
+  | 8 => of_run true (timed_cloud_io_retry (-1) c t ns_per_ms bz 1 op 0)
+  | 9 =>
+      let r := io_batch c (fun i (_ : Z) => op i) [1; 2; 3] 0 in
+      let '(o, tr, sl) := r in
+      let calls := List.length tr in
+      (true, code_of_io r, io_gaps tr sl,
+       Z.of_N (ns_per_ms * nsum sl + busy_sum bz 0 calls) / 1000, calls)
+  | 10 => of_run false (timed_builder_execute (-1) None None ns_per_ms bz 1 op 0)
+  | 11 => of_run true (timed_builder_execute (-1) None (Some t) ns_per_ms bz 1 op 0)
+  | 12 => of_run false (timed_executor_execute (-1) None None ns_per_ms bz 1 op 0)
+  | 13 => of_run true (timed_executor_execute (-1) None (Some t) ns_per_ms bz 1 op 0)
+  | 14 => of_run true (timed_with_timeout (-1) t bz 1 op 0)
+  | _ => (false, [-3], [], 0, O)
+  end.
+
+(* reference side of one wrapper: (code, gaps, least total in us, calls) *)
+Definition ref_wait (w : Z) (rc : Z * Z * bool * Z) (t_ms : Z) (s busy : list Z)
+  : list Z * list (option Z) * Z * nat :=
+  let '(ini, cap, ge2, b) := rc in
+  let bn := Z.to_N b in
+  let busy_to n := zsum (map (fun i => nth i busy 0) (seq 0 n)) in
+  if w =? 9 then
+    let calls := ref_io_calls bn s [1; 2; 3] 0 in
+    let gaps := ref_io_gaps bn ini cap ge2 s [1; 2; 3] 0 in
+    (ref_io bn s [1; 2; 3] 0 [] [], gaps,
+     1000 * (zsum (map (fun g => match g with Some ms => ms | None => 0 end) gaps) + busy_to calls),
+     calls)
+  else
+    let '(a, sym) := if has_retry w then ref_retry bn s 0 else (1%nat, nth 0 s 0) in
+    let waits := if has_retry w then ref_sleeps ini cap ge2 a else [] in
+    let lo := zsum waits + busy_to a in
+    let timed := has_timeout w || (w =? 14) in
+    ((if (sym =? 0) && timed && (t_ms <=? lo) then [Z.of_nat a; 2; 0]
+      else [Z.of_nat a; sym; Z.of_nat a]),
+     map Some waits, 1000 * lo, a).
+
+Definition judge_wait_obs (code : list Z) (total : Z) (gaps : list Z) (slack : Z)
+           (ecode : list Z) (egaps : list (option Z)) (elo : Z) (ecalls : nat) : bool :=
+  zlist_eqb code ecode && gaps_ok egaps gaps slack
+  && total_ok elo total slack (List.length egaps) ecalls.
+
+Definition wait_wrappers : list Z := Eval vm_compute in zrange 15.
+
+Fixpoint judge_waits (ws : list Z) (obs : list J) (c : retry_cfg) (rc : Z * Z * bool * Z)
+         (t_retry t_single : Z) (s busy : list Z) (slack : Z) : option (bool * bool * bool) :=
+  match ws, obs with
+  | [], [] => Some (true, true, true)
+  | w :: ws', JL [JI w'; jcode; JI total; jgaps] :: obs' =>
+      match jints jcode, jints jgaps, judge_waits ws' obs' c rc t_retry t_single s busy slack with
+      | Some code, Some gaps, Some (u, a, p) =>
+          let t := if w <? 10 then t_retry else t_single in
+          let '(mu, mcode, mgaps, mlo, mcalls) := model_wait w c t s busy in
+          let '(rcode, rgaps, rlo, rcalls) := ref_wait w rc t s busy in
+          Some (mu && u,
+                (w =? w') && judge_wait_obs code total gaps slack mcode mgaps mlo mcalls && a,
+                (w =? w') && judge_wait_obs code total gaps slack rcode rgaps rlo rcalls && p)
+      | _, _, _ => None
+      end
+  | _, _ => None
+  end.
+
+Definition check_waits (input output : J) : verdict :=
+  match input with
+  | JL [JL [ji; jc; jm; jb]; JL [JI t_retry; JI t_single]; jscript; jbusy; JI slack] =>
+      match dec_cfg ji jc jm jb, jints jscript, jints jbusy with
+      | Some c, Some s, Some busy =>
+          if negb (forallb sym_ok s && forallb (Z.leb 0) busy && (0 <=? t_retry) && (0 <=? t_single)
+                   && (0 <? slack) && (slack <=? 20000))
+          then malformed else
+          (* usability is a property of the input: decide it before looking at the output *)
+          if negb (forallb (fun w => let t := if w <? 10 then t_retry else t_single in
+                                     fst (fst (fst (fst (model_wait w c t s busy)))))
+                           wait_wrappers)
+          then malformed else
+          match output with
+          | JL obs =>
+              match judge_waits wait_wrappers obs c (ref_cfg ji jc jm jb) t_retry t_single s busy slack with
+              | Some (_, a, p) => ok_verdict a p
+              | None => bad_out output
+              end
+          | _ => bad_out output
+          end
+      | _, _, _ => malformed
+      end
+  | _ => malformed
+  end.
+
+(* "bwaits": in = [setters, script, busy_ms, slack_us], a setter is [0, initial, cap, mult, budget]
+   (.with_retry) or [1, timeout_ms] (.with_timeout);  out = [[code, total_us, gaps_us] x 4] for
+   OperationBuilder::new(), ::default(), CloudIOExecutor::new(), ::default().
+   model: timed_builder_run / timed_executor_run on the decoded setter list;
+   reference: the last [0, ..] and the last [1, ..] of the list *)
+Definition dec_wsetter (j : J) : option setter :=
+  match j with
+  | JL [JI 0; ji; jc; jm; jb] =>
+      match dec_cfg ji jc jm jb with Some c => Some (SetRetry c) | None => None end
+  | JL [JI 1; JI t] => if 0 <=? t then Some (SetTimeout (ns_per_ms * Z.to_N t)%N) else None
+  | _ => None
+  end.
+Definition is_retry_setter (j : J) : bool := match j with JL (JI 0 :: _) => true | _ => false end.
+Definition is_timeout_setter (j : J) : bool := match j with JL (JI 1 :: _) => true | _ => false end.
+
+Fixpoint judge_bwaits (k : nat) (obs : list J) (ss : list setter) (jss : list J)
+         (s busy : list Z) (slack : Z) : option (bool * bool) :=
+  match obs with
+  | [] => if Nat.eqb k 4 then Some (true, true) else None
+  | JL [jcode; JI total; jgaps] :: obs' =>
+      match jints jcode, jints jgaps, judge_bwaits (S k) obs' ss jss s busy slack with
+      | Some code, Some gaps, Some (a, p) =>
+          let op := script_op s in
+          let bz := busy_ns busy in
+          let r := if Nat.ltb k 2 then timed_builder_run (-1) ss ns_per_ms bz 1 op 0
+                   else timed_executor_run (-1) ss ns_per_ms bz 1 op 0 in
+          let mgaps := map (fun d => Some (Z.of_N d)) (run_sleeps r) in
+          let mlo := Z.of_N (run_clock ns_per_ms bz 0 r) / 1000 in
+          (* reference *)
+          let lastr := find is_retry_setter (rev jss) in
+          let lastt := find is_timeout_setter (rev jss) in
+          let w := match lastr, lastt with
+                   | Some _, Some _ => 4 | Some _, None => 3 | None, Some _ => 11 | None, None => 10
+                   end in
+          let rc := match lastr with
+                    | Some (JL [_; ji; jc; jm; jb]) => ref_cfg ji jc jm jb
+                    | _ => (0, 0, true, 1)
+                    end in
+          let t_ms := match lastt with Some (JL [_; JI t]) => t | _ => 0 end in
+          let '(rcode, rgaps, rlo, rcalls) := ref_wait w rc t_ms s busy in
+          Some (judge_wait_obs code total gaps slack (code_of_run r) mgaps mlo (run_calls r) && a,
+                judge_wait_obs code total gaps slack rcode rgaps rlo rcalls && p)
+      | _, _, _ => None
+      end
+  | _ => None
+  end.
+
+Definition check_bwaits (input output : J) : verdict :=
+  match input with
+  | JL [JL jss; jscript; jbusy; JI slack] =>
+      match omap dec_wsetter jss, jints jscript, jints jbusy with
+      | Some ss, Some s, Some busy =>
+          if negb (forallb sym_ok s && forallb (Z.leb 0) busy && (0 <? slack) && (slack <=? 20000))
+          then malformed else
+          let r0 := timed_builder_run (-1) ss ns_per_ms (busy_ns busy) 1 (script_op s) 0 in
+          if negb (match b_timeout (build ss) with
+                   | Some t => usable t (run_clock ns_per_ms (busy_ns busy) 0 r0)
+                   | None => true
+                   end)
+          then malformed else
+          match output with
+          | JL obs =>
+              match judge_bwaits 0 obs ss jss s busy slack with
+              | Some (a, p) => ok_verdict a p
+              | None => bad_out output
+              end
+          | _ => bad_out output
+          end
+      | _, _, _ => malformed
+      end
+  | _ => malformed
+  end.
+
 Definition check_parallel (input output : J) : verdict :=
   match input with
   | JL [jsyms] =>
@@ -603,5 +872,7 @@ Definition check_C18 (kind : string) (input output : J) : verdict :=
   else if String.eqb kind "defaults" then check_defaults input output
   else if String.eqb kind "timeout" then check_timeout input output
   else if String.eqb kind "timing" then check_timing input output
+  else if String.eqb kind "waits" then check_waits input output
+  else if String.eqb kind "bwaits" then check_bwaits input output
   else if String.eqb kind "parallel" then check_parallel input output
   else malformed.
